@@ -28,12 +28,14 @@ macro_rules! dispatch {
             "C02" => runner::$f::<props::c02::P>($($arg),*),
             "C05" => runner::$f::<props::c05::P>($($arg),*),
             "C06" => runner::$f::<props::c06::P>($($arg),*),
+            "C07" => runner::$f::<props::c07::P>($($arg),*),
             "C08" => runner::$f::<props::c08::P>($($arg),*),
             "C09" => runner::$f::<props::c09::P>($($arg),*),
             "C17" => runner::$f::<props::c17::P>($($arg),*),
             "C10" => runner::$f::<props::c10::P>($($arg),*),
             "C12" => runner::$f::<props::c12::P>($($arg),*),
             "C13" => runner::$f::<props::c13::P>($($arg),*),
+            "C14" => runner::$f::<props::c14::P>($($arg),*),
             "C15" => runner::$f::<props::c15::P>($($arg),*),
             "C20" => runner::$f::<props::c20::P>($($arg),*),
             other => {
